@@ -65,7 +65,7 @@ struct Obs {
 
 fn run_case(w: &World, sport: u16, rec: Option<&AuditRec>, method: &str, url: &str) -> Obs {
     let cur = w.hosts.cursors();
-    let body: Option<&[u8]> = if method == "POST" { Some(b"payload") } else { None };
+    let body: Option<&[u8]> = if method == "POST" || method == "PUT" { Some(b"payload") } else { None };
     let req = build_request(method, url, &[("Host", b"metadata"), ("Metadata", b"true")], body, None);
     let status = match w.connect(Some(sport), rec) {
         Ok(mut c) => {
@@ -109,11 +109,13 @@ fn main() {
     ];
     let pols = policies(thorough);
     let urls: Vec<&'static str> = if thorough {
-        vec!["/a/x", "/b", "/A/x", "/a/x?k=v", "/a/../b", "/a..b", "/b?x=..", "/a/%2e%2e/b", "/", "/a/..%2fb", "/a/..;/b", "/..", "/a/..", "/...", "/a/b/..%5cc"]
+        vec!["/a/x", "/b", "/A/x", "/a/x?k=v", "/a/../b", "/a..b", "/b?x=..", "/a/%2e%2e/b", "/", "/a/..%2fb", "/a/..;/b", "/..", "/a/..", "/...", "/a/b/..%5cc", "/vmAgentLog", "/VMAGENTLOG", "/machine/?comp=telemetrydata", "/machine?comp=telemetrydata", "/vmAgentLog/../b"]
     } else {
-        vec!["/a/x", "/b", "/A/x", "/a/../b", "/b?x=..", "/a..b", "/a/..%2fb"]
+        vec!["/a/x", "/b", "/A/x", "/a/../b", "/b?x=..", "/a..b", "/a/..%2fb", "/vmAgentLog", "/VMAGENTLOG", "/machine/?comp=telemetrydata"]
     };
-    let methods = ["GET", "POST"];
+    // PUT /vmAgentLog and POST /machine/?comp=telemetrydata are the two uploads the proxy relays without a
+    // signature (their own code path): mediation applies to them like to anything else
+    let methods = ["GET", "POST", "PUT"];
     let dests: Vec<Option<&'static str>> = vec![None, Some(WS), Some(HOSTGA), Some(IMDS), Some(PROXY), Some(OTHER)];
 
     // replay: a single case
@@ -441,7 +443,7 @@ fn main() {
     res.cov(
         "rule",
         format!(
-            "full product of {} destinations (incl. direct/no record, self, other) x {} callers x {} rule sets (endpoint under test gets the set, the other endpoints a contrasting one) x {} URLs x 2 methods, one fresh TCP connection with a chosen source port and an injected kernel audit record each; plus every ordered pair of rule sets (A,B) applied A,B,A to one kept-alive attributed connection (policy in force at request time must decide); plus every ordered pair of records over uid (0,1001) x two pids x is_root (0,1) on two consecutive connections per endpoint (each connection is judged by its own record); plus a direct connection from the source port of 1 or 2 earlier attributed and served connections, 0 and 30 ms after them, per endpoint (must get 421, nothing upstream); non-trivial = the reference says the request must be refused (distinct (dest, caller, rule set, url) counted)",
+            "full product of {} destinations (incl. direct/no record, self, other) x {} callers x {} rule sets (endpoint under test gets the set, the other endpoints a contrasting one) x {} URLs (incl. the two signature-exempt upload URLs) x 3 methods, one fresh TCP connection with a chosen source port and an injected kernel audit record each; plus every ordered pair of rule sets (A,B) applied A,B,A to one kept-alive attributed connection (policy in force at request time must decide); plus every ordered pair of records over uid (0,1001) x two pids x is_root (0,1) on two consecutive connections per endpoint (each connection is judged by its own record); plus a direct connection from the source port of 1 or 2 earlier attributed and served connections, 0 and 30 ms after them, per endpoint (must get 421, nothing upstream); non-trivial = the reference says the request must be refused (distinct (dest, caller, rule set, url) counted)",
             dests.len(), whos.len(), pols.len(), urls.len()
         ),
     );
